@@ -6,41 +6,25 @@ From RV Require Import Base.F64 Model.Units Model.Numeric Model.EvValue Model.Ev
 Import ListNotations.
 Local Open Scope Z_scope.
 
-(* the full statement about ValueRange: every pair of i64 bounds yields the integer interval *)
-Definition C17_range_statement : Prop :=
-  forall from to incl, i64_ok from = true -> i64_ok to = true ->
-  forall fuel, (Z.to_nat (Z.abs (to - from)) + 1 < fuel)%nat ->
-  range_items fuel from to incl = RItems (spec_range from to incl).
-
-(* F2: it is false of the faithful model - an inclusive range ending at i64::MAX panics *)
-Theorem C17_refuted_overflow : exists from to incl,
-  i64_ok from = true /\ i64_ok to = true /\ forall fuel, range_items fuel from to incl = RPanic.
-Proof. exact refuted_overflow. Qed.
-Print Assumptions C17_refuted_overflow.
-
-(* main theorem: for ALL i64 bounds, ascending and descending, inclusive and exclusive, the
-   iteration is exactly the integer interval, provided `to + step` is an i64 *)
+(* the full statement (F2 was fixed by 48adbab: the end bound lives in an i128): for ALL i64 bounds, ascending
+   and descending, inclusive and exclusive, the iteration is exactly the integer interval *)
 Theorem C17_range : forall from to incl fuel,
-  i64_ok from = true -> i64_ok to = true -> i64_ok (range_end from to incl) = true ->
+  i64_ok from = true -> i64_ok to = true ->
   (Z.to_nat (Z.abs (to - from)) + 1 < fuel)%nat ->
   range_items fuel from to incl = RItems (spec_range from to incl).
 Proof. exact range_correct. Qed.
 Print Assumptions C17_range.
 
-(* the excluded class is exactly: inclusive, and the end bound is the i64 limit in the direction of travel *)
-Theorem C17_range_overflow_iff : forall from to incl,
-  i64_ok from = true -> i64_ok to = true ->
-  (vr_new from to incl = None <->
-   incl = true /\ ((from <= to /\ to = 9223372036854775807) \/ (to < from /\ to = -9223372036854775808))).
-Proof. exact overflow_iff. Qed.
-Print Assumptions C17_range_overflow_iff.
+(* neither `to + step` nor `from += step` (i128) can overflow for i64 bounds: no range panics *)
+Theorem C17_range_never_panics : forall from to incl fuel,
+  i64_ok from = true -> i64_ok to = true -> range_items fuel from to incl <> RPanic.
+Proof. exact never_panics. Qed.
+Print Assumptions C17_range_never_panics.
 
-(* `self.from += self.step` never overflows: the only panic is the one in ValueRange::new *)
-Theorem C17_range_step_never_overflows : forall from to incl fuel,
-  i64_ok from = true -> i64_ok to = true ->
-  range_items fuel from to incl = RPanic -> vr_new from to incl = None.
-Proof. exact step_never_overflows. Qed.
-Print Assumptions C17_range_step_never_overflows.
+(* a @for over two numbers is an error or the items - never a panic *)
+Theorem C17_for_total : forall from to incl, for_eval from to incl <> FPanic.
+Proof. exact for_total. Qed.
+Print Assumptions C17_for_total.
 
 (* SrcRange::evaluate + the loop: `$i` has a's unit, the bounds are a's integer and b's
    (converted through the unit table when both have units) integer, and the values are the interval *)
@@ -100,7 +84,8 @@ Print Assumptions C17_while_spec.
 
 (* non-vacuity: hypotheses are satisfiable, and the theorems compute on concrete inputs *)
 Example C17_nonvacuous :
-  i64_ok 3 = true /\ i64_ok (range_end 3 (-2) true) = true
+  i64_ok 3 = true
+  /\ range_items 5 9223372036854775806 9223372036854775807 true = RItems [9223372036854775806; 9223372036854775807]
   /\ range_items 20 3 (-2) true = RItems [3; 2; 1; 0; -1; -2]
   /\ range_items 20 (-1) 2 false = RItems [-1; 0; 1]
   /\ if_eval (IfS VNull 0 (EIf (IfS (VInt 0) 1 (EBody 2)))) = Some 1%nat
